@@ -1,9 +1,14 @@
 /-
   `NamesOk ff e`: the (decidable) condition on the names and literal spellings of a tree under
   which the lexer reads the printed text back token by token —
-  * data-ref keys, access keys, function names and the dot-separated segments of a global are
-    ASCII identifiers `[A-Za-z_][A-Za-z0-9_]*`; a function name and the first segment of a global
-    are not keys of `builtinIdents` (`and`, `true`, `null`, `print`, `sp`, … would lex as the keyword);
+  * names are identifiers AS THE LEXER READS THEM: runs of letters, digits and `_` in UTF-8
+    (`unicode.IsLetter`, `unicode.IsDigit`: `alnumBytes`), where
+    - a function name and the first segment of a global begin with an ASCII letter or `_`
+      (`isLetterOrUnderscore` in `lexInsideTag`) and are not keys of `builtinIdents`
+      (`and`, `true`, `null`, `print`, `sp`, … would lex as the keyword): `identOk`, `notKeyword`;
+    - a data-ref key `$k` begins with a letter (any Unicode letter) or `_`: `varOk`;
+    - an access key `.k` / `?.k` and a later segment `.seg` of a global do not begin with an ASCII digit
+      (which would make it an index token): `keyOk`;
   * index accesses are not negative (`.-3` is not a token);
   * a string literal is spelled `q body q` with `q` one of `'` `"`, no unescaped `q` and no lone
     trailing backslash in the body (`strOk`; map keys are printed by `quoteString`, always fine);
@@ -20,17 +25,32 @@ set_option linter.unusedVariables false
 namespace SoyVerif.Lemmas.LexPrint
 open SoyVerif SoyVerif.Model SoyVerif.Model.Lex SoyVerif.Model.PrintTokens SoyVerif.Model.Printer
 
-/-- `[A-Za-z_][A-Za-z0-9_]*` -/
+/-- an ASCII letter or `_`, then letters / digits / `_` (UTF-8): what `lexInsideTag` + `lexIdent` read
+    as ONE word — `[A-Za-z_][A-Za-z0-9_]*` for ASCII names -/
 def identOk : Bytes → Bool
   | [] => false
-  | c :: k => isIdStart c && k.all isIdChar
+  | c :: k => isIdStart c && alnumBytes k
+
+/-- the name of `$name`: letters / digits / `_` beginning with a letter (of any script) or `_` -/
+def varOk : Bytes → Bool
+  | [] => false
+  | c :: k =>
+    alnumBytes (c :: k) &&
+      match runeAt (c :: k) with
+      | some (r, _) => letterR r
+      | none => false
+
+/-- the key of `.key` / `?.key`: letters / digits / `_` not beginning with an ASCII digit -/
+def keyOk : Bytes → Bool
+  | [] => false
+  | c :: k => !isDig c && alnumBytes (c :: k)
 
 /-- not a key of `parse.builtinIdents` -/
 def notKeyword (n : Bytes) : Bool := (Gen.builtinIdents.lookup n).isNone
 
 /-- a `.name` segment of a global -/
 def segOk : Bytes → Bool
-  | 46 :: k => identOk k
+  | 46 :: k => keyOk k
   | _ => false
 
 def globalOk (n : Bytes) : Bool :=
@@ -76,7 +96,7 @@ mutual
     | .func _ n args => identOk n && notKeyword n && NamesOkL args
     | .list _ items => NamesOkL items
     | .map _ items => NamesOkM items
-    | .dataRef _ k acc => identOk k && NamesOkAL acc
+    | .dataRef _ k acc => varOk k && NamesOkAL acc
     | .not _ a => NamesOk a
     | .neg _ a => NamesOk a
     | .bin _ _ a b => NamesOk a && NamesOk b
@@ -91,7 +111,7 @@ mutual
     | .nil => true
     | .cons a r => NamesOkA a && NamesOkAL r
   def NamesOkA : Access → Bool
-    | .key _ _ k => identOk k
+    | .key _ _ k => keyOk k
     | .index _ _ i => decide (0 ≤ i)
     | .expr _ _ e => NamesOk e
 end
@@ -101,11 +121,31 @@ end
 /-! ### identifiers -/
 
 theorem identOk_parts {k : Bytes} (h : identOk k = true) :
-    ∃ c r, k = c :: r ∧ isIdStart c = true ∧ ∀ b ∈ r, isIdChar b = true := by
+    ∃ c r, k = c :: r ∧ isIdStart c = true ∧ alnumBytes r = true := by
   cases k with
   | nil => simp [identOk] at h
   | cons c r =>
-    simp only [identOk, Bool.and_eq_true, List.all_eq_true] at h
+    simp only [identOk, Bool.and_eq_true] at h
+    exact ⟨c, r, rfl, h.1, h.2⟩
+
+theorem varOk_parts {k : Bytes} (h : varOk k = true) :
+    ∃ c r, k = c :: r ∧ alnumBytes (c :: r) = true ∧ ∀ x w, runeAt (c :: r) = some (x, w) → letterR x = true := by
+  cases k with
+  | nil => simp [varOk] at h
+  | cons c r =>
+    simp only [varOk, Bool.and_eq_true] at h
+    refine ⟨c, r, rfl, h.1, ?_⟩
+    intro x w hx
+    have h2 := h.2
+    rw [hx] at h2
+    exact h2
+
+theorem keyOk_parts {k : Bytes} (h : keyOk k = true) :
+    ∃ c r, k = c :: r ∧ isDig c = false ∧ alnumBytes (c :: r) = true := by
+  cases k with
+  | nil => simp [keyOk] at h
+  | cons c r =>
+    simp only [keyOk, Bool.and_eq_true, Bool.not_eq_true'] at h
     exact ⟨c, r, rfl, h.1, h.2⟩
 
 theorem idStart_idChar {c : UInt8} (h : isIdStart c = true) : isIdChar c = true := by simp [isIdChar, h]
